@@ -19,7 +19,7 @@ RULE = (
     "explorerscript_reader.py, macro.py, compiler/utils.py and the antlr4 ATN simulator / DFA / prediction-context "
     "modules (every opcode event inside graph_utils.py) a yield point; all threads but one are parked; a drawn list of "
     "(thread choice, run length) pairs decides who runs next - the schedule is data, replays exactly and shrinks. A "
-    "second mode lets the same jobs run freely with sys.setswitchinterval(1e-6). Oracle: every job's result (ops, "
+    "second mode lets the same jobs run freely with sys.setswitchinterval(1e-6); a third ('cold') runs the scheduled jobs in a fresh interpreter BEFORE anything was parsed there, so that the shared ANTLR DFA caches are built under thread switches, and computes the sequential results afterwards. Oracle: every job's result (ops, "
     "offsets, tables, text, serialized source maps) equals its result when run alone beforehand; no job raises. "
     "Non-trivial = the schedule switched threads >= 20 times while >= 2 jobs were inside traced code; distinct by hash."
 )
@@ -46,7 +46,8 @@ def strategy(tier):
         "schedule": st.lists(st.tuples(st.integers(0, 3), st.one_of(st.integers(1, 8), st.integers(1, 200), st.integers(1, 3000))).map(list), min_size=5, max_size=120),
     })
     free_case = st.fixed_dictionaries({"mode": st.just("free"), "jobs": st.lists(job_items(), min_size=2, max_size=4), "dup": st.booleans(), "schedule": st.just([])})
-    return st.one_of(sched_case, sched_case, sched_case, free_case)
+    cold_case = sched_case.map(lambda c: dict(c, mode="cold"))
+    return st.one_of(sched_case, sched_case, sched_case, free_case, cold_case)
 
 
 def make_job(item):
@@ -59,7 +60,74 @@ def make_job(item):
     return lambda: results.decompile_result_nobudget(gen_ssb.build(c))
 
 
+def run_case_here(case, reference_first=True):
+    """Runs the jobs of a case under the scheduler in THIS process; returns a JSON-able verdict.
+    reference_first=False: the concurrent run comes first (cold caches), the sequential results afterwards."""
+    # import everything up front: a thread parked inside a module's import would hold the import lock and
+    # dead-lock the harness (imports are not what C12 is about; the DFA caches stay cold)
+    import explorerscript.ssb_converting.ssb_compiler  # noqa
+    import explorerscript.ssb_converting.ssb_decompiler  # noqa
+    import explorerscript.ssb_script.ssb_converting.ssb_compiler  # noqa
+    import explorerscript.ssb_script.ssb_converting.ssb_decompiler  # noqa
+    import explorerscript.ssb_converting.compiler.compiler_visitor.position_mark_visitor  # noqa
+    from vf import cut, model  # noqa
+
+    items = list(case["jobs"])
+    if case.get("dup") and items:
+        items.append(items[0])
+    jobs, kinds, kept = [], [], []
+    for it in items:
+        j = make_job(it)
+        if j is None:
+            continue
+        jobs.append(j)
+        kinds.append(it["kind"])
+        kept.append(it)
+    if len(jobs) < 2:
+        return {"skip": True}
+    refs = None
+    if reference_first:
+        refs = [j() for j in jobs]
+    s = sched.Scheduler(jobs, case["schedule"])
+    got, errs = s.run()
+    if refs is None:
+        refs = [j() for j in jobs]
+    out = {"switches": s.switches, "two_inside": s.switches_while_two_inside, "yield_points": s.yield_points, "fails": []}
+    for i, (g, e, r) in enumerate(zip(got, errs, refs)):
+        if e is not None:
+            out["fails"].append([f"job_raised:{type(e).__name__}", f"job {i} ({kinds[i]}) raised {type(e).__name__}: {e}"])
+        elif g != r:
+            what = next((k for k in r if r.get(k) != (g or {}).get(k)), "?")
+            out["fails"].append([f"result_differs:{kinds[i]}:{what}", f"job {i} ({kinds[i]}): {canon.first_diff(r, g, 'result')[:600]}"])
+    return out
+
+
+def evaluate_cold(case, stt):
+    import os
+    import subprocess
+
+    from vf.core import REPO, VERIF
+
+    env = dict(os.environ, PYTHONPATH=str(REPO) + os.pathsep + str(VERIF), PYTHONHASHSEED="0", VERIF_REPO=str(REPO))
+    p = subprocess.run([sys.executable, "-m", "vf.fresh"], input=json.dumps({"concurrent": True, "case": case}), capture_output=True, text=True, env=env, cwd=str(VERIF), timeout=900)
+    if p.returncode != 0:
+        raise RuntimeError("cold worker failed: " + p.stderr[-400:] + p.stdout[-200:])
+    out = json.loads(p.stdout)
+    if out.get("skip"):
+        stt.count("discard_fewer_than_two_jobs")
+        return []
+    stt.count("mode:cold_process")
+    stt.add("yield_points", out["yield_points"])
+    stt.add("switches", out["switches"])
+    if out["two_inside"] >= 20:
+        stt.mark_nontrivial(case)
+    info = f"[cold process, switches={out['switches']} (two jobs inside: {out['two_inside']})]"
+    return [Failure("cold:" + b, m + " " + info) for b, m in out["fails"]]
+
+
 def evaluate(case, stt):
+    if case["mode"] == "cold":
+        return evaluate_cold(case, stt)
     fails = []
     items = list(case["jobs"])
     if case.get("dup") and items:
